@@ -549,7 +549,8 @@ impl DateTime {
                 // Escape parts starting with apostrophe
                 if part.starts_with('\'') {
                     let part = part.replace('\u{0000}', "'");
-                    return part[1..part.len() - usize::from(part.ends_with('\''))]
+                    return part
+                        [1..part.len() - usize::from(part.len() > 1 && part.ends_with('\''))]
                         .chars()
                         .collect::<Vec<char>>();
                 }
